@@ -835,6 +835,9 @@ class BosonicBackend(BaseBosonic):
 
         if modes is None:
             modes = self.get_modes()
+        # deleted or unknown modes have no state
+        elif not set(modes) <= set(self.get_modes()):
+            raise ValueError("The specified modes are not valid.")
 
         mode_names = ["q[{}]".format(i) for i in modes]
 
